@@ -1179,7 +1179,7 @@ func (c *vCtx) c01WireCases() []wireCase {
 		idx  int
 		side shwap.RowSide
 	}{{0, shwap.Left}, {n - 1, shwap.Right}}
-	if w > 1 && vx.TierFromEnv() != "thorough" {
+	if w > 1 && vx.TierFromEnv() != "thorough" && os.Getenv("VERIF_REPLAY") == "" {
 		rowCases = nil
 	}
 	for _, x := range rowCases {
